@@ -437,7 +437,7 @@ impl<'a> G<'a> {
                 match self.rng.gen_range(0..3) {
                     0 => {
                         let a = self.pick(|t| t == Ty::Native, IrType::Native);
-                        let n = if self.rng.gen_bool(0.85) { self.rng.gen_range(0..=32) } else { [33usize, 40][self.rng.gen_range(0..2)] };
+                        let n = if self.rng.gen_bool(0.95) { self.rng.gen_range(0..=32) } else { [33usize, 40][self.rng.gen_range(0..2)] };
                         self.emit(IntoBytes(n), vec![a], vec![(o, Ty::Bytes(n))]);
                     }
                     1 => {
@@ -448,7 +448,7 @@ impl<'a> G<'a> {
                     }
                     _ => {
                         let p = self.pick(|t| t == Ty::Point, IrType::JubjubPoint);
-                        let n = if self.rng.gen_bool(0.9) { 32 } else { 31 };
+                        let n = if self.rng.gen_bool(0.96) { 32 } else { 31 };
                         self.emit(IntoBytes(n), vec![p], vec![(o, Ty::Bytes(n))]);
                     }
                 }
@@ -466,11 +466,12 @@ impl<'a> G<'a> {
                 } else {
                     (self.load(IrType::Bytes(k), 1)[0].clone(), k)
                 };
-                match self.rng.gen_range(0..5) {
+                let which = if self.rng.gen_bool(0.04) { 4 } else { self.rng.gen_range(0..4) };
+                match which {
                     0 => self.emit(FromBytes(IrType::Native), vec![b], vec![(o, Ty::Native)]),
                     1 => {
                         let w = (8 * len) as u32 + [0u32, 0, 1, 8, 100][self.rng.gen_range(0..5)];
-                        let w = if self.rng.gen_bool(0.1) { w.saturating_sub(1) } else { w };
+                        let w = if self.rng.gen_bool(0.05) { w.saturating_sub(1) } else { w };
                         self.emit(FromBytes(IrType::BigUint(w)), vec![b], vec![(o, Ty::Big)]);
                     }
                     2 => {
